@@ -424,6 +424,7 @@ class Translator:
         st = State()
         self.cur_stmt = None
         self.loop = None
+        self.cguards = []
         params = fd.decl.type.args.params if fd.decl.type.args else []
         for p in params:
             if isinstance(p, A.Typename) or p.name is None:
@@ -515,6 +516,21 @@ class Translator:
                 f.state0 = (base, pos, end)
 
     # -- events --------------------------------------------------------------------------------
+    def guarded(self, text):
+        """wrap a run-time assertion in the short-circuit conditions under which the access happens"""
+        if not self.cguards:
+            return text
+        cs = []
+        for (n, pos) in self.cguards:
+            try:
+                t = self.c_text(n)
+            except Untranslatable:
+                # the guard has side effects (a call): it cannot be re-evaluated; the assertion is then
+                # checked unconditionally (earlier than, and whenever, the access could happen)
+                continue
+            cs.append("(%s)" % t if pos else "!(%s)" % t)
+        return "if (%s) { %s }" % (" && ".join(cs), text) if cs else text
+
     def site(self):
         s = self.cur_stmt
         return s.coord.line if s is not None and s.coord else 0
@@ -547,8 +563,8 @@ class Translator:
         f.events.append(ev)
         if self.site():
             c_off = "((const char*)(%s) - (const char*)(%s))" % (c_ptr, o.c_base)
-            self.inserts.append((self.site(), "VERIF_ACC(%d, \"%s\", %s, %s, %s, %s);" % (
-                f.nacc, "%s:%d" % (f.name, f.nacc), c_off, c_len, o.c_size, f.ret_fail or "")))
+            self.inserts.append((self.site(), self.guarded("VERIF_ACC(%d, \"%s\", %s, %s, %s, %s);" % (
+                f.nacc, "%s:%d" % (f.name, f.nacc), c_off, c_len, o.c_size, f.ret_fail or ""))))
 
     def emit_rej(self, st, exc):
         f = self.f
@@ -830,7 +846,9 @@ class Translator:
             p = self.cond(n.left, st)
             saved = st.pc
             st.pc = AND(saved, p if n.op == "&&" else NOT(p))
+            self.cguards.append((n.left, n.op == "&&"))     # short-circuit: right operand only evaluated under this
             q = self.cond(n.right, st)
+            self.cguards.pop()
             st.pc = saved
             return AND(p, q) if n.op == "&&" else OR(p, q)
         if isinstance(n, A.UnaryOp) and n.op == "!":
@@ -1548,19 +1566,41 @@ def decide(model):
     prove must be refuted by a concrete witness found here, which then becomes a clause of K_<fn>.
     A VC that is neither proved nor refuted is emitted as a lemma anyway, so that the generated file
     fails to compile (fail closed)."""
+    import hashlib
     import tempfile
     import shutil
-    tmp = tempfile.mkdtemp(prefix="aqc04-")
+    text = probe_text(model)
+    # the probe only PRE-SORTS the VCs (provable / needs a witness); its answer is cached by the hash
+    # of the probe text.  Soundness does not depend on it: every VC classified provable is emitted
+    # with `lia` as its proof and re-checked by the real build.
+    key = hashlib.sha256(text.encode()).hexdigest()
+    cpath = os.path.join(VERIF, "coq", "gen", "c04_probe_cache.json")
+    failed = None
     try:
-        pv = os.path.join(tmp, "Probe.v")
-        with open(pv, "w") as fh:
-            fh.write(probe_text(model))
-        r = subprocess.run(["coqc", "-q", pv], capture_output=True, text=True, timeout=600, cwd=tmp)
-        if r.returncode != 0:
-            raise Untranslatable("VC probe does not compile: %s" % r.stderr[-800:])
-        failed = set(re.findall(r"VCFAIL (\S+) (\d+)", r.stdout + r.stderr))
-    finally:
-        shutil.rmtree(tmp, ignore_errors=True)
+        cj = json.load(open(cpath))
+        if cj.get("key") == key:
+            failed = set(tuple(x) for x in cj["failed"])
+    except Exception:
+        pass
+    if failed is None:
+        tmp = tempfile.mkdtemp(prefix="aqc04-")
+        try:
+            pv = os.path.join(tmp, "Probe.v")
+            with open(pv, "w") as fh:
+                fh.write(text)
+            r = subprocess.run(["coqc", "-q", pv], capture_output=True, text=True, timeout=600, cwd=tmp)
+            if r.returncode != 0:
+                raise Untranslatable("VC probe does not compile: %s" % r.stderr[-800:])
+            failed = set(re.findall(r"VCFAIL (\S+) (\d+)", r.stdout + r.stderr))
+        finally:
+            shutil.rmtree(tmp, ignore_errors=True)
+        try:
+            os.makedirs(os.path.dirname(cpath), exist_ok=True)
+            with open(cpath + ".tmp%d" % os.getpid(), "w") as fh:
+                json.dump({"key": key, "failed": sorted(failed)}, fh)
+            os.replace(cpath + ".tmp%d" % os.getpid(), cpath)
+        except Exception:
+            pass
     undecided = []
     for name, f in model["functions"].items():
         for ev in f.events:
